@@ -484,6 +484,19 @@ impl CommandBuilder<'_> {
     }
 }
 
+/// Converts raw input bytes into an argument without altering them where the
+/// platform allows it (arguments need not be valid UTF-8 on Unix).
+#[cfg(unix)]
+fn bytes_to_os_string(bytes: &[u8]) -> OsString {
+    use std::os::unix::ffi::OsStringExt;
+    OsString::from_vec(bytes.to_vec())
+}
+
+#[cfg(not(unix))]
+fn bytes_to_os_string(bytes: &[u8]) -> OsString {
+    String::from_utf8_lossy(bytes).into_owned().into()
+}
+
 trait ArgumentReader {
     fn next(&mut self) -> io::Result<Option<Argument>>;
 }
@@ -585,7 +598,7 @@ where
         }
 
         Ok(Some(Argument {
-            arg: String::from_utf8_lossy(&result[..]).into_owned().into(),
+            arg: bytes_to_os_string(&result[..]),
             kind: if terminated_by_newline {
                 ArgumentKind::HardTerminated
             } else {
@@ -634,7 +647,7 @@ where
                     &buf[..]
                 };
                 break Some(Argument {
-                    arg: String::from_utf8_lossy(bytes).into_owned().into(),
+                    arg: bytes_to_os_string(bytes),
                     kind: ArgumentKind::HardTerminated,
                 });
             }
